@@ -29,6 +29,10 @@ class _BitVector(type):
 
     @_intrinsic
     def __getitem__(cls, size: int | slice):
+        assert not hasattr(
+            cls, "_width"
+        ), f"{cls} is already sized and cannot be specialized again"
+
         if isinstance(size, slice):
             assert size.step is None, "step parameter not allowed in slice argument"
             assert isinstance(size.start, int), "start parameter must be integer"
